@@ -179,6 +179,16 @@ def _final_checks(case, state, rundir, res, N, ledger0):
     if live_rows:
         out.append(C._viol(PROP, "live_path_has_row", f"crash at {site}: live paths {live_rows} have data rows",
                            None, case, site=site))
+    if case["scn"].get("stale_data_file"):
+        try:
+            with open(os.path.join(rundir, "infretis_data.txt")) as fh:
+                same = fh.read() == SC.stale_data_content()
+        except OSError:
+            same = False
+        if not same and os.path.basename(dfile) != "infretis_data.txt":
+            out.append(C._viol(PROP, "older_data_file_modified",
+                               f"crash at {site}: the data file of an earlier run (infretis_data.txt) was "
+                               f"changed by a restart that writes {os.path.basename(dfile)}", None, case, site=site))
     for a in active:
         pdir = os.path.join(rundir, cfg["simulation"]["load_dir"], str(a))
         if not os.path.isfile(os.path.join(pdir, "traj.txt")) or not os.path.isfile(os.path.join(pdir, "order.txt")):
